@@ -91,6 +91,9 @@ type c19UScn struct {
 	Size     int    `json:"size"`
 	DurS     int    `json:"dur_s"`
 	Racing   int    `json:"racing_first_connections"` // > 0: that many GetUser calls for the fresh UID overlap (= Sessions)
+	// Terminate: at the end the panel terminates the user (closeAllSessions) while every session is still writing and the
+	// bucket is empty: one closing notice per session goes out, metered like everything else
+	Terminate bool `json:"terminate,omitempty"`
 	Via      string `json:"via"`
 }
 
@@ -236,6 +239,9 @@ func c19URun(sc c19UScn, bar *c19Barrier) (evs []c19UEv, info c19UInfo, err erro
 	rec.add("backlog.start", "tx", 0)
 	time.Sleep(time.Duration(sc.DurS) * time.Second)
 	rec.add("backlog.end", "tx", 0)
+	if sc.Terminate {
+		panel.TerminateActiveUser(users[0], "c19: credit used up")
+	}
 	stop.Store(true)
 	for writers.Load() > 0 {
 		time.Sleep(10 * time.Millisecond)
@@ -313,12 +319,15 @@ func TestVerifC19User(t *testing.T) {
 		{ID: 102, Up: 100000, Down: 20000, Sessions: 3, Size: 16000, DurS: 15},
 		{ID: 105, Up: 20000, Down: 100000, Sessions: 2, Racing: 2, Size: 1400, DurS: 10},
 		{ID: 106, Up: 100000, Down: 20000, Sessions: 3, Racing: 3, Size: 1400, DurS: 10},
+		{ID: 109, Up: 20000, Down: 2000, Sessions: 12, Size: 100, DurS: 10, Terminate: true},
 	}
 	if kit.Thorough() {
 		scs = append(scs, c19UScn{ID: 103, Up: 2000, Down: 20000, Sessions: 3, Size: 100, DurS: 40},
 			c19UScn{ID: 104, Up: 100000, Down: 2000, Sessions: 2, Size: 1400, DurS: 30},
 			c19UScn{ID: 107, Up: 20000, Down: 2000, Sessions: 4, Racing: 4, Size: 100, DurS: 30},
-			c19UScn{ID: 108, Up: 2000, Down: 100000, Sessions: 2, Racing: 2, Size: 1400, DurS: 15})
+			c19UScn{ID: 108, Up: 2000, Down: 100000, Sessions: 2, Racing: 2, Size: 1400, DurS: 15},
+			c19UScn{ID: 110, Up: 20000, Down: 1000, Sessions: 32, Size: 100, DurS: 10, Terminate: true},
+			c19UScn{ID: 111, Up: 2000, Down: 5000, Sessions: 3, Size: 1400, DurS: 10, Terminate: true})
 	}
 	for _, sc := range scs {
 		sc.Via = "server.userPanel.GetUser / ActiveUser.GetSession"
